@@ -6,6 +6,10 @@ V = os.path.dirname(os.path.dirname(os.path.abspath(__file__)))
 TECH = 'contract-based deductive verification: VCs generated from the real function ASTs by pyvc (sidecar contracts), discharged by z3 raced with cvc5'
 
 CLAIMED = {
+ 'C04': dict(
+   text="Deductive, for what import statements bind and how a scope answers for a name: ModuleVistor.visit_ImportFrom resolves the module of a relative import exactly as the import system does (one package up per leading dot after the first, counted from the package of the importing module - the module itself for a package's __init__; loop with a remaining-work invariant over the spec function anc), reports and binds nothing when the level is too high, and - through the verified contract of _importNames - binds every alias, under its as-name, to <resolved module>.<name> in the scope the statement stands in; visit_Import binds the top-level package for 'import a.b.c' and the full dotted target for 'import a.b.c as x'; Module._localNameToFullName answers with its own definitions first, then its imports, then the bare name; Class._localNameToFullName with the class body's definitions, then the class body's imports, and only then the enclosing scope.",
+   note="Scope of the contracts = the property's quantifier: no __all__ in the importing module (re-exports: C07), each name bound once per scope. Assumed: re-entrant analysis of other modules only adds bindings; parser invariants of Import/ImportFrom nodes. NOT under contract: the walk of dotted names in Documentable.expandName, star imports (_importAll), assignment aliases (_handleAliasing), find_object - 'resolves to the object Python binds' as a whole is decided only by the bounded native harness against CPython (25 / 400 generated acyclic projects with unique names, every runtime-bound name of every module and class namespace plus one attribute level on module aliases, ~140 names per project).",
+   ref='6 C04'),
  'C18': dict(
    text="Deductive, with iteration over a set modelled as an arbitrary enumeration of its members (a fresh unconstrained order per iteration - what the hash seed decides): the project name computed by driver.get_system (a region of the real body) equals the given name or '/'.join(sorted(root names)), i.e. it is a function of the set of roots (this obligation fails on the pre-fix code); Documentable.url decides 'index.html' exactly when the set of root names is the singleton of the page's name, whatever order the set is enumerated in; the sort key of the index pages (_lckey) is injective on qualified names, so those sorts have exactly one result.",
    note="Whole-output byte identity is NOT carried by contracts: directory traversal order (sorted(iterdir())), the fixed build time, member ordering, the template writer, the search index and the inventory are decided by the bounded native 2-run harness only (fresh interpreters with PYTHONHASHSEED 1 / 2 / 77, directory listings reversed in the child, output written over a previous result; sha256 of every file; 6 (9) projects). Assumed: sorted() is a function of the multiset of its elements; dicts iterate in insertion order.",
